@@ -6,7 +6,7 @@ namespace MakoModel.ModFile
 open MakoModel.Generated.ModFile
 
 theorem regenNeeded_iff (c : Content) :
-    regenNeeded c = true ↔ (c.magic ≠ magicNumber ∨ c.file ≠ 0) := by
+    regenNeeded c = true ↔ (c.magic ≠ magicNumber ∨ normOf c.file ≠ normOf 0) := by
   simp [regenNeeded, magicRecheck_on, fileRecheck_on]
 
 theorem tmpId_inj {p q : Nat} {a b : Bool} (h : tmpId p a = tmpId q b) : p = q := by
@@ -31,7 +31,7 @@ def PhaseOk (init : Option File) (v0 : Nat) (fs : FS) (cur : Nat) (p : Nat) : Ph
     safeTr (tmpId p s) (decide (fs (.tmp (tmpId p s)) = some ⟨new, now⟩)) rem = true ∧
     (raised = false → PathNew v0 fs cur ∨ movedIn rem = true)
   | .toLoad s => fs .mod ≠ none ∧ (s = true → PathNew v0 fs cur)
-  | .done r => ∀ c, r = some c → c.complete = true ∧ c.magic = magicNumber ∧ c.file = 0 ∧
+  | .done r => ∀ c, r = some c → c.complete = true ∧ c.magic = magicNumber ∧ normOf c.file = normOf 0 ∧
       (NewLike v0 cur c ∨ ∃ t, init = some ⟨c, t⟩)
 
 /-- the invariant of every schedule -/
@@ -293,17 +293,17 @@ theorem stepProc_J {init : Option File} {v0 : Nat} (st : CState) (pid : Nat) (h 
           | true =>
             obtain ⟨f', hf', hn⟩ := hsec rfl
             rw [hf] at hf'; cases hf'
-            exact ⟨hc', hn.2.1, hn.2.2.1, horigin⟩
+            exact ⟨hc', hn.2.1, by rw [hn.2.2.1], horigin⟩
           | false =>
             have hnr : ¬ regenNeeded f.content = true := fun hr => hreg ⟨rfl, hr⟩
-            have : ¬ (f.content.magic ≠ magicNumber ∨ f.content.file ≠ 0) :=
+            have : ¬ (f.content.magic ≠ magicNumber ∨ normOf f.content.file ≠ normOf 0) :=
               fun hor => hnr ((regenNeeded_iff f.content).2 hor)
             have hm : f.content.magic = magicNumber := by
               by_cases hm : f.content.magic = magicNumber
               · exact hm
               · exact absurd (Or.inl hm) this
-            have hfi : f.content.file = 0 := by
-              by_cases hfi : f.content.file = 0
+            have hfi : normOf f.content.file = normOf 0 := by
+              by_cases hfi : normOf f.content.file = normOf 0
               · exact hfi
               · exact absurd (Or.inr hfi) this
             exact ⟨hc', hm, hfi, horigin⟩
